@@ -1015,29 +1015,16 @@ def apiSetTick (ns : Nat) : Prog Int := do
     modify fun s => s.updCtx fun c' => { c' with tick := ns, tickPolled := ns != 0 && c.state == .looping }
     pure 0
 
-/-- resolve a recorded poll entry token (`ps:h1`, `fd:h1:5`, `tmr:h1:1000:u|b|t`, `tick`) -/
-def resolveEnt (s : St) (tok : String) : PollEnt :=
-  match tok.splitOn ":" with
-  | ["tick"] => .tick
-  | ["ps", h] => match s.handles.lookup h with | some m => .ps m | none => .bad tok
-  | [k, h, key] =>
-    match s.handles.lookup h, key.toNat? with
-    | some m, some key =>
-      let kind : Option SrcKind := if k == "fd" then some .fd else if k == "sgn" then some .sgn
-        else if k == "pid" then some .pid else if k == "path" then some .path else none
-      match kind.bind (fun kd => findSrc s m kd key .user) with
-      | some i => .src i
-      | none => .bad tok
-    | _, _ => .bad tok
-  | ["tmr", h, key, r] =>
-    match s.handles.lookup h, key.toNat? with
-    | some m, some key =>
-      let role : Role := if r == "b" then .batchTimer else if r == "t" then .tbTimer else .user
-      match findSrc s m .tmr key role with
-      | some i => .src i
-      | none => .bad tok
-    | _, _ => .bad tok
-  | _ => .bad tok
+/-- resolve a recorded poll entry against the current registries -/
+def resolveEnt (s : St) : BatchTok → PollEnt
+  | .tick => .tick
+  | .ps h => match s.handles.lookup h with | some m => .ps m | none => .bad h
+  | .src kind h key role =>
+    match s.handles.lookup h with
+    | some m => match findSrc s m kind key role with | some i => .src i | none => .bad h
+    | none => .bad h
+  | .forceQuit => .bad "!quit"
+  | .bad t => .bad t
 
 /-- take the next recorded poll result -/
 def nextBatch : Prog (List PollEnt) := do
@@ -1046,7 +1033,7 @@ def nextBatch : Prog (List PollEnt) := do
   | [] => do modify fun s => s.emit (.note "OUT-OF-BATCHES"); pure []
   | b :: rest => do
     setSt { s with batches := rest }
-    if b == ["!quit"] then do
+    if b == [.forceQuit] then do
       -- the environment gave up waiting for events: it forces a quit (recorded from the harness)
       modify fun s => s.updCtx fun c => { c with quit := true, quitCode := 77 }
       pure []
